@@ -292,6 +292,26 @@ pub fn c02_case(a: &N, b: &N, seed: u64) -> Result<u32, Bad> {
     }
     Ok(k)
 }
+/// one operand given as the Jacobian rescaling by a boundary field value (the other one affine): "any representative"
+pub fn c02_special_case(side: u64, a: &N, b: &N, sc: &Value) -> Result<u32, Bad> {
+    let want = refmodel::pairing(&ref_mul::<G1>(a), &ref_mul::<G2>(b)).to_bytes();
+    let (va, vb) = if side == 0 {
+        (crate::api::build::<G1>(a, &crate::api::Rep::Scaled(refmodel::Fq(gn(sc, "s")))), crate::api::build::<G2>(b, &crate::api::Rep::Aff))
+    } else {
+        (crate::api::build::<G1>(a, &crate::api::Rep::Aff), crate::api::build::<G2>(b, &crate::api::Rep::Scaled(crate::api::gf2(&sc["s"]))))
+    };
+    let (va, vb) = match (va, vb) {
+        (Some(x), Some(y)) => (x, y),
+        _ => return Ok(0),
+    };
+    let mut k = 0;
+    for ep in Ep::ALL {
+        let gb = ep.call(va.v, vb.v)?.to_slice();
+        ensure!(gb[..] == want[..], "wrong-bytes", "{}(P, Q) with P={} Q={}: library {} , textbook R-ate pairing {}", ep.name(), va.json(), vb.json(), short(&gb), short(&want));
+        k += 1;
+    }
+    Ok(k)
+}
 pub fn c02_vectors() -> Result<u32, Bad> {
     use refmodel::vectors as v;
     use refmodel::{nhex, F2};
@@ -328,6 +348,36 @@ pub fn c02_run(run: &Run) {
         |_| Ok(Tally::new(c02_vectors()?, true, 0)),
         |_| json!({"op": "c02.vectors"}),
     );
+    {
+        // Scaled(s) for every special field value s on one side (G2: as real and as purely imaginary factor)
+        let mut cases: Vec<(u64, Value)> = vec![];
+        for sv in mccore::alpha::special(refmodel::q()) {
+            if sv.is_zero() {
+                continue;
+            }
+            cases.push((0, json!({"s": jn(&sv)})));
+            for e in <G2 as GroupApi>::scale_embeddings(&sv) {
+                cases.push((1, json!({"s": crate::api::jf2(&e)})));
+            }
+        }
+        let ab: Vec<(N, N)> = match run.tier {
+            Tier::Quick => vec![(n(1), n(1))],
+            Tier::Thorough => vec![(n(1), n(1)), (n(2), r() - n(1)), (consts().lambda.clone(), n(3))],
+        };
+        let (nc, nab) = (cases.len() as u64, ab.len() as u64);
+        run.grid(
+            Spec { name: "c02.special-representatives", n: nc * nab, classes: &[], required: &[] },
+            |i| {
+                let (c, (a, b)) = (&cases[(i / nab) as usize], &ab[(i % nab) as usize]);
+                let k = c02_special_case(c.0, a, b, &c.1)?;
+                Ok(Tally::new(k, k > 0, 0))
+            },
+            |i| {
+                let (c, (a, b)) = (&cases[(i / nab) as usize], &ab[(i % nab) as usize]);
+                json!({"op": "c02.special", "side": c.0, "a": jn(a), "b": jn(b), "scale": c.1})
+            },
+        );
+    }
     let seed = run.seed;
     run.grid(
         Spec { name: "c02.textbook", n: nk * nk, classes: &[], required: &[] },
@@ -339,7 +389,8 @@ pub fn c02_meta(_run: &Run) -> Meta {
     Meta {
         rule: "grid: every (a, b) over K2 x K2; the reference computes a*P1 and b*P2 by its own affine double-and-add and then the textbook R-ate \
                pairing directly (untwist, affine Miller loop over the bits of 6t+2, two Frobenius line steps, generic exponentiation by \
-               (q^12-1)/r in F_q[w]/(w^12+2)); the library's 384 bytes must be identical for {Aff, LibMul, Scaled}^2 x three entry points. \
+               (q^12-1)/r in F_q[w]/(w^12+2)); the library's 384 bytes must be identical for {Aff, LibMul, Scaled}^2 x three entry points; one operand \
+               rescaled by every special field value (stored 1, cube roots of unity, -1, ...) x three entry points. \
                Plus the three published values of the SM9 standard through every entry point."
             .into(),
         engine: "sm9mc-grid".into(),
@@ -787,6 +838,7 @@ pub fn replay(c: &Value) -> Result<(), Bad> {
         "c01.bilinear" => c01_bilinear(&v1("P"), &v2("Q"), ep()).map(|_| ()),
         "c01.additive" => c01_additive(&v1("P"), &v1("P2"), &v2("Q"), &v2("Q2"), ep()).map(|_| ()),
         "c01.identity" => c01_identity(&v1("P"), &v2("Q"), ep()).map(|_| ()),
+        "c02.special" => c02_special_case(c["side"].as_u64().unwrap_or(0), &gn(c, "a"), &gn(c, "b"), &c["scale"]).map(|_| ()),
         "c02.vectors" => c02_vectors().map(|_| ()),
         "c02.textbook" => c02_case(&gn(c, "a"), &gn(c, "b"), c["seed"].as_u64().unwrap_or(1)).map(|_| ()),
         "c03.pair" => c03_pair(&v1("P"), &v2("Q")).map(|_| ()),
